@@ -4,10 +4,12 @@
    Proved here for all datasets / arguments: batch-size arithmetic, every batch-structure operation
    (create, repartition, splitBatch, splice, append, reorderElements, indexedSubset, splitAtElement,
    transform) keeps the element sequence as documented, and the input/label pairing theorems.
-   NOT proved (tied to the code by the correspondence run only, see DESIGN.md#C03): the iterator
-   advance loops, repartitionByClass' class-stable order, binarySubProblem, view -> dataset.      *)
+   The element iterator (increment, decrement, advance by any signed offset: the loops of
+   DataElementIterator::advance) dereferences exactly the element whose index it reports.
+   NOT proved (tied to the code by the correspondence run only, see DESIGN.md#C03):
+   repartitionByClass' class-stable order, binarySubProblem, view -> dataset.                      *)
 From Coq Require Import List Arith Permutation.
-From SharkV Require Import ListAux C03Model C03Proofs C12Model C12Proofs.
+From SharkV Require Import ListAux C03Model C03Proofs C03Iter C12Model C12Proofs.
 Import ListNotations.
 
 Theorem C03_optimal_batch_sizes :
@@ -139,6 +141,30 @@ Theorem C03_subset_and_complement :
     Permutation (idx ++ complement idx n) (seq 0 n).
 Proof. exact complement_perm. Qed.
 Print Assumptions C03_subset_and_complement.
+
+(* element access by iterator (either direction, any jump) agrees with access by index; [it_ok d it p]
+   says: the iterator points into batch b at element e, reports index p, and p is the position of
+   that element in the batch sequence *)
+Theorem C03_iterator_dereferences_indexed_element :
+  forall A (d : @data A) it p, it_ok d it p -> it_deref d it = element p d.
+Proof. intros A d it p H. rewrite element_spec. exact (deref_ok d it p H). Qed.
+Print Assumptions C03_iterator_dereferences_indexed_element.
+
+Theorem C03_iterator_steps :
+  forall A (d : @data A), (forall b, b < length d -> 0 < length (nth b d [])) ->
+  forall it p, it_ok d it p ->
+    (S p < nelems d -> it_ok d (it_incr d it) (S p) /\ it_decr d (it_incr d it) = it) /\
+    (forall q, p = S q -> it_ok d (it_decr d it) q) /\
+    (forall n, p + n < nelems d -> it_ok d (it_advance d it false n) (p + n)) /\
+    (forall n, n <= p -> it_ok d (it_advance d it true n) (p - n)).
+Proof.
+  intros A d NE it p H. split; [|split; [|split]].
+  - intros Hn. split; [apply incr_ok; auto|eapply incr_decr_identity; eauto].
+  - intros q ->. apply decr_ok; auto.
+  - intros n Hn. apply advance_forward_ok; auto.
+  - intros n Hn. apply advance_backward_ok; auto.
+Qed.
+Print Assumptions C03_iterator_steps.
 
 (* non-vacuity *)
 Example C03_example :
